@@ -287,7 +287,9 @@ type hostileGen struct {
 }
 
 var hostileLits = []string{"0", "1", "-1", "2", "7", "-7", "99999999999999999999", "-9223372036854775808", "9223372036854775807", "2147483648", "1.5", "-0.5", "1e5", "007", "-0", "1.", ".5", "''", `""`, `"abc"`, "'a b'", `"é😀"`, "nil", "true", "false", "empty", "blank", `"%"`, `"..."`, `" "`, "1000", "50", "1001", "-2", "3.999"}
-var hostileProps = []string{"size", "first", "last", "a", "b", "title", "Title", "name", "inner", "wall", "P", "M", "x-y", "ok?", "0"}
+var hostileProps = []string{"size", "first", "last", "a", "b", "title", "Title", "name", "inner", "wall", "P", "M", "x-y", "ok?", "0",
+	// promoted fields, and the exported zero-argument methods of time.Time by result shape: one value, two values, three values, (value, error)
+	"X", "Y", "k", "Year", "Zone", "ISOWeek", "Clock", "Date", "Location", "UTC", "String", "MarshalJSON", "IsZero"}
 
 func (g *hostileGen) pick(l string, n int) int { return rapid.IntRange(0, n-1).Draw(g.t, l) }
 
